@@ -458,9 +458,9 @@ func transactions(th bool) []*transaction.Transaction {
 	return out
 }
 
-func txHash(v any) string  { return v.(*transaction.Transaction).Hash().StringLE() }
-func txSize(v any) int     { return v.(*transaction.Transaction).Size() }
-func wrongType() error     { return errors.New("wrong type") }
+func txHash(v any) string { return v.(*transaction.Transaction).Hash().StringLE() }
+func txSize(v any) int    { return v.(*transaction.Transaction).Size() }
+func wrongType() error    { return errors.New("wrong type") }
 func hasReserved(t *transaction.Transaction) bool {
 	for _, a := range t.Attributes {
 		if a.Type >= transaction.ReservedLowerBound {
@@ -526,8 +526,8 @@ func txCodecs() []*codec {
 	// stack item form of a rule (what contracts see and what RPC bindings parse back)
 	ruleSI := &codec{
 		name: "transaction.WitnessRule/stackitem", pkg: "pkg/core/transaction",
-		gen:  func(bool) []any { return toAny(ptrs(ruleList())) },
-		enc:  func(v any) ([]byte, error) { return serItem(v.(*transaction.WitnessRule).ToStackItem()) },
+		gen: func(bool) []any { return toAny(ptrs(ruleList())) },
+		enc: func(v any) ([]byte, error) { return serItem(v.(*transaction.WitnessRule).ToStackItem()) },
 		dec: func(b []byte) (any, error) {
 			it, err := deserItem(b)
 			if err != nil {
@@ -556,7 +556,7 @@ func txCodecs() []*codec {
 	out = append(out, sg)
 	sgSI := &codec{
 		name: "transaction.Signer/stackitem", pkg: "pkg/core/transaction",
-		gen:  func(th bool) []any { return toAny(ptrs(signerList(th))) },
+		gen: func(th bool) []any { return toAny(ptrs(signerList(th))) },
 		enc: func(v any) ([]byte, error) {
 			it, err := v.(*transaction.Signer).ToStackItem()
 			if err != nil {
@@ -650,8 +650,8 @@ func txCodecs() []*codec {
 	// Transaction through the entry point used by P2P (CMDTX) and RPC.
 	txb := &codec{
 		name: "transaction.Transaction/NewTransactionFromBytes", pkg: "pkg/core/transaction",
-		gen:  func(th bool) []any { return toAny(transactions(th)) },
-		enc:  func(v any) ([]byte, error) { return encS(v.(*transaction.Transaction)) },
+		gen: func(th bool) []any { return toAny(transactions(th)) },
+		enc: func(v any) ([]byte, error) { return encS(v.(*transaction.Transaction)) },
 		dec: func(b []byte) (any, error) {
 			t, err := transaction.NewTransactionFromBytes(b)
 			if err != nil {
@@ -989,7 +989,7 @@ func blockCodecs() []*codec {
 		// the trimmed form the database keeps
 		tb := &codec{
 			name: "block.Block/trimmed" + sfx, pkg: "pkg/core/block",
-			gen:  func(th bool) []any { return toAny(blocks(sr, th)) },
+			gen: func(th bool) []any { return toAny(blocks(sr, th)) },
 			enc: func(v any) ([]byte, error) {
 				return encW(func(w *io.BinWriter) { v.(*block.Block).EncodeTrimmed(w) })
 			},
